@@ -23,6 +23,8 @@ func checkC18(r *Run) {
 		return
 	}
 	ruleHlogIsolation(r, p)
+	// two requests that receive the same pooled Event share one buffer: the pool discipline of C06
+	ruleA13(r, p, map[string]bool{"": true}, "ab")
 	ruleProxy(r, p)
 	ruleA24(r, p)
 	r.Floor("ISOL", 17)
